@@ -30,7 +30,12 @@ func run(outDir string) error {
 	}
 
 	mediaSegFiles := []string{"testdata/V300/1.m4s", "testdata/A48/1.m4s"}
-	combinedMediaSeg, err := combineMediaSegments(mediaSegFiles, trackIDs)
+	// The trex boxes of the init segments carry the default sample values of the media segments
+	var trexs []*mp4.TrexBox
+	if mvex := combinedInitSeg.Moov.Mvex; mvex != nil && len(mvex.Trexs) == len(mediaSegFiles) {
+		trexs = mvex.Trexs
+	}
+	combinedMediaSeg, err := combineMediaSegmentsWithTrex(mediaSegFiles, trackIDs, trexs)
 	if err != nil {
 		return err
 	}
@@ -75,6 +80,11 @@ func combineInitSegments(files []string, newTrackIDs []uint32) (*mp4.InitSegment
 }
 
 func combineMediaSegments(files []string, newTrackIDs []uint32) (*mp4.MediaSegment, error) {
+	return combineMediaSegmentsWithTrex(files, newTrackIDs, nil)
+}
+
+// combineMediaSegmentsWithTrex combines media segments using trexs[i] (may be nil) for the default values of file i.
+func combineMediaSegmentsWithTrex(files []string, newTrackIDs []uint32, trexs []*mp4.TrexBox) (*mp4.MediaSegment, error) {
 	var combinedSeg *mp4.MediaSegment
 	var outFrag *mp4.Fragment
 	for i := 0; i < len(files); i++ {
@@ -114,7 +124,12 @@ func combineMediaSegments(files []string, newTrackIDs []uint32) (*mp4.MediaSegme
 			}
 			combinedSeg.AddFragment(outFrag)
 		}
-		var trex *mp4.TrexBox = nil // Here we should have the trex from the corresponding init segment
+		var trex *mp4.TrexBox = nil // the trex from the corresponding init segment, if provided
+		if i < len(trexs) && trexs[i] != nil {
+			t := *trexs[i] // its track ID has been changed to the new one: match the input fragment's
+			t.TrackID = frag.Moof.Traf.Tfhd.TrackID
+			trex = &t
+		}
 		fss, err := frag.GetFullSamples(trex)
 		if err != nil {
 			return nil, fmt.Errorf("failed to get full samples: %w", err)
